@@ -38,6 +38,10 @@ type c14Case struct {
 	V6      bool      `json:"v6"`
 	Reads   []c14Read `json:"reads"`
 	CloseAt int       `json:"close_at"` // position at which the server is closed (−1: the socket fails after the last read instead)
+	// CloseRace: the datagram at position CloseAt is put on the socket and the server is closed in the same breath, so
+	// the read that returns it and Close are concurrent. Whether the server gets to read it is the scheduler's choice;
+	// if it did read it (the scripted socket knows), it must dispatch it like any other.
+	CloseRace bool `json:"close_race,omitempty"`
 }
 
 type c14Call struct {
@@ -89,6 +93,7 @@ var c14 = newChk("C14", "dispatch",
 		releases := map[int]chan struct{}{}
 		serialOf := map[int]int{} // read index → serial
 		var serveErr error
+		consumed := 0
 		serveDone := false
 		earlyReturn := ""
 		sockErr := errors.New("socket failed")
@@ -120,6 +125,7 @@ var c14 = newChk("C14", "dispatch",
 				go func() { serveErr = s.Serve(); serveDone = true }()
 				defer s.Close()
 				c14Drive(c, conn, func() { s.Close() }, releases, serialOf, &mu, &serveDone, &earlyReturn, sockErr)
+				consumed = conn.Reads()
 			} else {
 				s, err := server4.NewServer("", nil, func(_ net.PacketConn, peer net.Addr, m *dhcpv4.DHCPv4) {
 					if m == nil {
@@ -134,6 +140,7 @@ var c14 = newChk("C14", "dispatch",
 				go func() { serveErr = s.Serve(); serveDone = true }()
 				defer s.Close()
 				c14Drive(c, conn, func() { s.Close() }, releases, serialOf, &mu, &serveDone, &earlyReturn, sockErr)
+				consumed = conn.Reads()
 			}
 		})
 		if prob != "" {
@@ -162,6 +169,9 @@ var c14 = newChk("C14", "dispatch",
 		last := len(c.Reads)
 		if c.CloseAt >= 0 && c.CloseAt < last {
 			last = c.CloseAt
+			if c.CloseRace && consumed > c.CloseAt {
+				last = c.CloseAt + 1 // the server did read the datagram that raced with Close
+			}
 		}
 		for i := 0; i < last; i++ {
 			r := c.Reads[i]
@@ -242,6 +252,9 @@ var c14 = newChk("C14", "dispatch",
 		if c.CloseAt >= 0 {
 			rec.Class("closed mid-sequence")
 		}
+		if c.CloseRace {
+			rec.Class(fmt.Sprintf("close concurrent with a read (datagram consumed: %v)", consumed > c.CloseAt))
+		}
 		if malformedThenValid || alive >= 2 {
 			rec.NonTrivial(obs.HashJSON(c), func() any {
 				return map[string]any{"server": fam, "reads": len(c.Reads), "dispatched": len(want), "handlers_outliving_reads": alive, "close_at": c.CloseAt}
@@ -272,6 +285,9 @@ func c14Drive(c c14Case, conn *netsim.Conn, closeSrv func(), releases map[int]ch
 	closed := false
 	for i, r := range c.Reads {
 		if c.CloseAt == i {
+			if c.CloseRace {
+				conn.Deliver(c14Bytes(c.V6, r, serialOf[i]), senderAddr(r.Sender, r.Port, c.V6))
+			}
 			closeSrv()
 			closed = true
 			synctest.Wait()
@@ -427,6 +443,7 @@ func genC14() *rapid.Generator[c14Case] {
 		}
 		if rapid.IntRange(0, 2).Draw(t, "close") == 0 {
 			c.CloseAt = rapid.IntRange(0, n).Draw(t, "closeat")
+			c.CloseRace = c.CloseAt < n && rapid.Bool().Draw(t, "closerace")
 		}
 		return c
 	})
